@@ -237,7 +237,7 @@ def run(ctx, only_cases=None):
             small = shrink(binary, c, first["kind"])
             so = vlib.run_harness(binary, [small])[0]
             ctx.violation(key, "real SessionManager/ClientRegistry: %s after [%s]" % (
-                (so["viol"] or o["viol"])[0]["msg"], describe(small["ops"])),
+                ([v for v in so["viol"] if v["kind"] == first["kind"]] or o["viol"])[0]["msg"], describe(small["ops"])),
                 {"case": small, "violations": (so["viol"] or o["viol"])[:6], "observed_last": (so["steps"] or [None])[-1]})
 
     # exhaustive small-scope enumeration (predicate on every sequence; a stride of them also goes to the model)
@@ -271,7 +271,7 @@ def run(ctx, only_cases=None):
                         small = shrink(binary, {"cfg": cfg, "ops": b["ops"]}, b["viol"][0]["kind"])
                         so = vlib.run_harness(binary, [small])[0]
                         ctx.violation(key, "real SessionManager/ClientRegistry (exhaustive enumeration): %s after [%s]" % (
-                            (so["viol"] or b["viol"])[0]["msg"], describe(small["ops"])),
+                            ([v for v in so["viol"] if v["kind"] == b["viol"][0]["kind"]] or b["viol"])[0]["msg"], describe(small["ops"])),
                             {"case": small, "violations": (so["viol"] or b["viol"])[:6]})
                 for e in r["emitted"]:
                     ex_emitted.append({"cfg": cfg, "ops": e["ops"], "steps": e["steps"], "viol": e["viol"], "attributable": e["attributable"]})
